@@ -14,11 +14,12 @@ MODULES = ["mirror.rs", "kjson.rs", "gen.rs", "print.rs", "checks.rs", "helpers_
 
 # property -> [(group, [obligation prefixes that belong to the property])]
 GROUPS = {
-    "C01": [("e2e", ["e2e.members", "e2e.multiplicity"]), ("text_filter", ["text_filter.api_agree"]), ("text_arith", ["text_arith.members", "text_arith.api_agree"]), ("text_plain", ["text_plain.members", "text_plain.api_agree"]), ("text_union", ["text_union.members", "text_union.api_agree"]), ("name_lookup", ["process_key.member", "process_key.wrong_member"]), ("descendant", ["process_descendant.preorder"]),
+    "C01": [("e2e", ["e2e.members", "e2e.multiplicity", "e2e.second_impl.members", "e2e.second_impl.multiplicity"]), ("text_filter", ["text_filter.api_agree"]), ("text_arith", ["text_arith.members", "text_arith.api_agree"]), ("text_plain", ["text_plain.members", "text_plain.api_agree"]), ("text_union", ["text_union.members", "text_union.api_agree"]), ("name_lookup", ["process_key.member", "process_key.wrong_member"]), ("descendant", ["process_descendant.preorder"]),
             ("selectors", ["process_selectors.members"])],
-    "C02": [("e2e", ["e2e.order", "e2e.multiplicity"]), ("text_union", ["text_union.members", "text_union.order", "text_union.api_agree"]), ("descendant", ["process_descendant.preorder"]), ("selectors", ["process_selectors.order", "process_selectors.members"])],
+    "C02": [("e2e", ["e2e.order", "e2e.multiplicity", "e2e.second_impl.order", "e2e.second_impl.multiplicity"]), ("text_union", ["text_union.members", "text_union.order", "text_union.api_agree"]), ("descendant", ["process_descendant.preorder"]), ("selectors", ["process_selectors.order", "process_selectors.members"])],
     "C03": [("e2e", ["e2e.path"]), ("pointer_text", ["Pointer::key.text", "Pointer::idx.text"]), ("name_lookup", ["process_key.path", "process_key.wrong_member"]),
-            ("descendant", ["process_descendant.path"]), ("requery", ["path.requery", "path.injective"])],
+            ("descendant", ["process_descendant.path"]), ("requery", ["path.requery", "path.injective"]),
+            ("text_union", ["text_union.api_agree"]), ("text_plain", ["text_plain.api_agree"])],
     "C04": [("cmp_struct", ["eq.structural", "lt.order"]), ("e2e_cmp", ["e2e_cmp.members", "e2e_cmp.multiplicity"]), ("text_cmp", ["text_cmp.members", "text_cmp.order", "text_cmp.accepts"])],
     "C05": [("e2e_filter", ["e2e_filter.members", "e2e_filter.multiplicity", "e2e_filter.order"]), ("text_filter", ["text_filter.members", "text_filter.order", "text_filter.accepts"])],
     "C08": [("e2e", ["e2e.no_panic", "e2e.ok"]), ("arith", ["process_index.no_panic", "process_slice.no_panic"]), ("regex", ["regex.no_panic"]),
